@@ -39,9 +39,9 @@ Lemma fill_chunk_spec fuel : forall size blen chunk ceof s chunk' ceof' s',
   (fill_more (lenN chunk) blen = true -> ceof' <= 2 /\ (lenN chunk < lenN chunk' \/ ceof < ceof')).
 Proof.
   induction fuel as [|f IH]; intros size blen chunk ceof s chunk' ceof' s' Hsz H; rewrite fill_chunk_eq in H.
-  - destruct (fill_more (lenN chunk) blen); [discriminate|]. inversion H; subst. repeat split; try lia. discriminate.
+  - destruct (fill_more (lenN chunk) blen); [discriminate|]. inversion H; subst. repeat split; try lia; try discriminate.
   - destruct (fill_more (lenN chunk) blen) eqn:FM.
-    2:{ inversion H; subst. repeat split; try lia. discriminate. }
+    2:{ inversion H; subst. repeat split; try lia; try discriminate. }
     destruct (s_read size s) as [d s1] eqn:R.
     pose proof (s_read_total _ _ _ _ R) as T.
     pose proof (s_read_empty_eof _ _ _ _ Hsz R) as E.
@@ -49,22 +49,25 @@ Proof.
     set (c1 := ceof + (if s_at_eof s1 then 1 else 0)) in *.
     destruct (2 <? c1) eqn:X; [discriminate|].
     destruct (negb (c1 =? 0)) eqn:Z.
-    + inversion H; subst. rewrite lenN_app. repeat split; try (unfold c1; destruct (s_at_eof s1); lia).
-      * lia.
-      * destruct d as [|x d'].
-        -- right. specialize (E eq_refl). unfold c1. rewrite E. lia.
-        -- left. rewrite lenN_cons. lia.
+    + assert (K : ceof <= c1) by (unfold c1; destruct (s_at_eof s1); lia).
+      assert (K2 : d = [] -> ceof < c1).
+      { intro D. specialize (E D). unfold c1. rewrite E. lia. }
+      inversion H; subst. rewrite lenN_app.
+      split; [lia|]. split; [exact K|]. split; [lia|]. intros _. split; [lia|].
+      destruct d as [|x d'].
+      * right. apply K2. reflexivity.
+      * left. rewrite lenN_cons. lia.
     + apply negb_false_iff in Z. apply N.eqb_eq in Z.
       assert (A : s_at_eof s1 = false). { unfold c1 in Z. destruct (s_at_eof s1); [lia|reflexivity]. }
       assert (D : d <> []). { intro D. rewrite (E D) in A. discriminate. }
       apply lenN_pos_cons in D.
       destruct (IH _ _ _ _ _ _ _ _ Hsz H) as (I1 & I2 & I3 & I4).
-      rewrite lenN_app in *. repeat split; try lia.
-      * unfold c1 in I2. destruct (s_at_eof s1); lia.
-      * intros _. split; [|left; lia].
-        destruct (fill_more (lenN chunk + lenN d) blen) eqn:FM2.
-        -- apply I4; reflexivity.
-        -- rewrite fill_chunk_eq, lenN_app, FM2 in H. inversion H; subst. lia.
+      rewrite lenN_app in *.
+      assert (K : ceof <= c1) by (unfold c1; destruct (s_at_eof s1); lia).
+      split; [lia|]. split; [lia|]. split; [lia|]. intros _. split; [|left; lia].
+      destruct (fill_more (lenN chunk + lenN d) blen) eqn:FM2.
+      * apply I4; reflexivity.
+      * rewrite fill_chunk_eq, lenN_app, FM2 in H. inversion H; subst. lia.
 Qed.
 
 Lemma fill_chunk_fuel fuel : forall size blen chunk ceof s,
@@ -111,7 +114,7 @@ Proof.
       destruct (find_from _ (pv ++ chunk) _) as [idx|].
       * intro H; inversion H; subst; clear H. split; [|split; [repeat split|lia]].
         destruct (is_nil (dropb (lenN (takeb idx pv)) (takeb idx (pv ++ chunk)))) eqn:NI.
-        -- left. cbn. rewrite NI. reflexivity.
+        -- left. reflexivity.
         -- right. apply is_nil_false, lenN_pos_cons in NI.
            unfold measure, prev_len. cbn [p_prev p_content_eof p_set_window]. rewrite PV.
            rewrite s_unread_total. rewrite !dropb_len, !takeb_len, !lenN_app in *. lia.
@@ -120,7 +123,7 @@ Proof.
     + destruct (find_from _ (pv ++ chunk0) _) as [idx|].
       * intro H; inversion H; subst; clear H. split; [|split; [repeat split|lia]].
         destruct (is_nil (dropb (lenN (takeb idx pv)) (takeb idx (pv ++ chunk0)))) eqn:NI.
-        -- left. cbn. rewrite NI. reflexivity.
+        -- left. reflexivity.
         -- right. apply is_nil_false, lenN_pos_cons in NI.
            unfold measure, prev_len. cbn [p_prev p_content_eof p_set_window]. rewrite PV.
            rewrite s_unread_total. rewrite !dropb_len, !takeb_len, !lenN_app in *. lia.
@@ -128,34 +131,318 @@ Proof.
         unfold measure, prev_len. cbn [p_prev p_content_eof p_set_window]. rewrite PV. lia.
   - (* first chunk *)
     destruct (s_read size s) as [r1 s1] eqn:R1. pose proof (s_read_total _ _ _ _ R1) as T1.
+    cbv beta iota zeta.
+    assert (DP : lenN (delim_prefix ++ r1) = 2 + lenN r1). { rewrite lenN_app. reflexivity. }
+    set (pv := delim_prefix ++ r1) in *. clearbody pv.
     destruct (fill_chunk _ size (p_blen p) [] (p_content_eof p) s1) as [[[chunk0 ceof'] s2]|e] eqn:F; [|discriminate].
     destruct (fill_chunk_spec _ _ _ _ _ _ _ _ _ Hsz F) as (C1 & C2 & _ & C4).
     assert (FM : fill_more (lenN (@nil N)) (p_blen p) = true). { unfold fill_more. rewrite lenN_nil0. lia. }
     destruct (C4 FM) as (C5 & C6). rewrite lenN_nil0 in *. clear C4 FM.
     unfold overflow.
-    assert (DP : lenN (delim_prefix ++ r1) = 2 + lenN r1). { rewrite lenN_app. reflexivity. }
     destruct (size <? lenN chunk0) eqn:OV.
     + set (chunk := takeb size chunk0). set (s3 := s_unread (dropb size chunk0) s2).
       assert (T3 : s_total s3 + lenN chunk = s_total s2 + lenN chunk0).
       { unfold s3, chunk. rewrite s_unread_total, dropb_len, takeb_len. lia. }
       assert (L3 : 0 < lenN chunk). { unfold chunk. rewrite takeb_len. lia. }
-      destruct (find_from _ ((delim_prefix ++ r1) ++ chunk) _) as [idx|].
+      destruct (find_from _ (pv ++ chunk) _) as [idx|].
       * intro H; inversion H; subst; clear H. split; [|split; [repeat split|lia]].
-        destruct (is_nil (dropb (lenN (takeb idx (delim_prefix ++ r1))) (takeb idx ((delim_prefix ++ r1) ++ chunk)))) eqn:NI.
-        -- left. cbn. rewrite NI. reflexivity.
+        destruct (is_nil (dropb (lenN (takeb idx pv)) (takeb idx (pv ++ chunk)))) eqn:NI.
+        -- left. reflexivity.
         -- right. apply is_nil_false, lenN_pos_cons in NI.
            unfold measure, prev_len. cbn [p_prev p_content_eof p_set_window]. rewrite PV.
-           rewrite s_unread_total. rewrite !dropb_len, !takeb_len in *. rewrite (lenN_app (delim_prefix ++ r1) chunk) in *. lia.
+           rewrite s_unread_total. rewrite !dropb_len, !takeb_len, !lenN_app in *. lia.
       * intro H; inversion H; subst; clear H. split; [|split; [repeat split|lia]]. right.
         unfold measure, prev_len. cbn [p_prev p_content_eof p_set_window]. rewrite PV. lia.
-    + destruct (find_from _ ((delim_prefix ++ r1) ++ chunk0) _) as [idx|].
+    + destruct (find_from _ (pv ++ chunk0) _) as [idx|].
       * intro H; inversion H; subst; clear H. split; [|split; [repeat split|lia]].
-        destruct (is_nil (dropb (lenN (takeb idx (delim_prefix ++ r1))) (takeb idx ((delim_prefix ++ r1) ++ chunk0)))) eqn:NI.
-        -- left. cbn. rewrite NI. reflexivity.
+        destruct (is_nil (dropb (lenN (takeb idx pv)) (takeb idx (pv ++ chunk0)))) eqn:NI.
+        -- left. reflexivity.
         -- right. apply is_nil_false, lenN_pos_cons in NI.
            unfold measure, prev_len. cbn [p_prev p_content_eof p_set_window]. rewrite PV.
-           rewrite s_unread_total. rewrite !dropb_len, !takeb_len in *. rewrite (lenN_app (delim_prefix ++ r1) chunk0) in *. lia.
+           rewrite s_unread_total. rewrite !dropb_len, !takeb_len, !lenN_app in *. lia.
       * intro H; inversion H; subst; clear H. split; [|split; [repeat split|lia]]. right.
         unfold measure, prev_len. cbn [p_prev p_content_eof p_set_window]. rewrite PV.
         destruct C6 as [C6|C6]; lia.
+Qed.
+
+(* ---- read_chunk ---- *)
+Definition rc_tail (b64 : bool) (carry : bytes) (want : N) (x : bytes * part * stream) : res (bytes * part * stream) :=
+  let '(fresh, p1, s1) := x in
+  let chunk := carry ++ fresh in
+  let p2 := p_add_read (lenN fresh) p1 in
+  let '(chunk2, p3) := if b64 then align_base64 chunk (lenN carry + want) p2 else (chunk, p2) in
+  let p4 := if length_reached p3 then p_set_eof p3 else p3 in
+  if p_at_eof p4 then
+    match s_readline 0 s1 with
+    | (None, _) => Err ELineTooLong
+    | (Some l, s2) => if list_eqb l CRLF then Ok (chunk2, p4, s2) else Err EValue
+    end
+  else Ok (chunk2, p4, s1).
+
+Definition rc_want (size : N) (p : part) : N :=
+  if is_nil (p_carry p) then size else N.max (size - lenN (p_carry p)) (p_blen p).
+
+Lemma read_chunk_eq size p s :
+  read_chunk size p s =
+  if p_at_eof p then Ok ([], p, s) else
+  match (match p_length p with
+         | Some l => if l =? 0 then read_chunk_from_stream (rc_want size p) (p_set_carry [] p) s
+                     else read_chunk_from_length (rc_want size p) l (p_set_carry [] p) s
+         | None => read_chunk_from_stream (rc_want size p) (p_set_carry [] p) s
+         end) with
+  | Err e => Err e
+  | Ok x => rc_tail (p_b64 p) (p_carry p) (rc_want size p) x
+  end.
+Proof.
+  unfold read_chunk, rc_tail, rc_want. destruct (p_at_eof p); [reflexivity|].
+  destruct (match p_length p with Some _ => _ | None => _ end) as [[[fresh p1] s1]|e]; reflexivity.
+Qed.
+
+Lemma align_base64_keeps chunk size p c p' :
+  align_base64 chunk size p = (c, p') ->
+  p_prev p' = p_prev p /\ p_content_eof p' = p_content_eof p /\ p_at_eof p' = p_at_eof p /\
+  p_length p' = p_length p /\ p_read_bytes p' = p_read_bytes p.
+Proof.
+  unfold align_base64.
+  destruct (negb _ && (size <? lenN chunk)); cbv beta iota zeta;
+    repeat match goal with |- context [if ?b then _ else _] => destruct b end;
+    intro H; inversion H; subst; repeat split; reflexivity.
+Qed.
+
+Lemma rc_tail_spec b64 carry want fresh p1 s1 d p' s' :
+  rc_tail b64 carry want (fresh, p1, s1) = Ok (d, p', s') ->
+  p_at_eof p' = true \/
+  (s' = s1 /\ p_prev p' = p_prev p1 /\ p_content_eof p' = p_content_eof p1 /\ p_at_eof p1 = false /\
+   p_length p' = p_length p1 /\ p_read_bytes p' = p_read_bytes p1 + lenN fresh /\ length_reached p' = false).
+Proof.
+  unfold rc_tail.
+  set (p2 := p_add_read (lenN fresh) p1).
+  destruct (if b64 then align_base64 (carry ++ fresh) (lenN carry + want) p2 else (carry ++ fresh, p2)) as [chunk2 p3] eqn:A.
+  assert (K : p_prev p3 = p_prev p1 /\ p_content_eof p3 = p_content_eof p1 /\ p_at_eof p3 = p_at_eof p1 /\
+              p_length p3 = p_length p1 /\ p_read_bytes p3 = p_read_bytes p1 + lenN fresh).
+  { destruct b64.
+    - apply align_base64_keeps in A. destruct A as (A1 & A2 & A3 & A4 & A5).
+      rewrite A1, A2, A3, A4, A5. repeat split; reflexivity.
+    - inversion A; subst. repeat split; reflexivity. }
+  destruct K as (K1 & K2 & K3 & K4 & K5).
+  destruct (length_reached p3) eqn:LR.
+  - cbn [p_at_eof p_set_eof].
+    destruct (s_readline 0 s1) as [[l|] s2]; [|discriminate].
+    destruct (list_eqb l CRLF); [|discriminate]. intro H; inversion H; subst. left. reflexivity.
+  - destruct (p_at_eof p3) eqn:E3.
+    + destruct (s_readline 0 s1) as [[l|] s2]; [|discriminate].
+      destruct (list_eqb l CRLF); [|discriminate]. intro H; inversion H; subst. left. exact E3.
+    + intro H; inversion H; subst. right. rewrite <- K3. repeat split; assumption.
+Qed.
+
+Lemma measure_eq p p' s : p_prev p' = p_prev p -> p_content_eof p' = p_content_eof p -> measure p' s = measure p s.
+Proof. unfold measure, prev_len. intros -> ->. reflexivity. Qed.
+
+Lemma rc_want_pos size p : 0 < size -> 0 < rc_want size p.
+Proof. unfold rc_want. pose proof (blen_ge2 p). destruct (is_nil (p_carry p)); lia. Qed.
+
+Theorem read_chunk_progress size p s d p' s' :
+  0 < size -> wf p -> p_at_eof p = false ->
+  read_chunk size p s = Ok (d, p', s') ->
+  p_at_eof p' = true \/ (measure p' s' < measure p s /\ wf p').
+Proof.
+  intros Hsz W E H. rewrite read_chunk_eq, E in H.
+  pose proof (rc_want_pos size p Hsz) as Hw. set (want := rc_want size p) in *.
+  set (p0 := p_set_carry [] p) in *.
+  assert (stream_case : forall x, read_chunk_from_stream want p0 s = Ok x ->
+            (p_length p = None \/ p_length p = Some 0) ->
+            rc_tail (p_b64 p) (p_carry p) want x = Ok (d, p', s') ->
+            p_at_eof p' = true \/ (measure p' s' < measure p s /\ wf p')).
+  { intros [[fresh p1] s1] F PL T.
+    apply from_stream_progress in F. destruct F as (F1 & (S1 & S2 & _) & _).
+    apply rc_tail_spec in T. destruct T as [T|(-> & T1 & T2 & T3 & T4 & _)]; [left; exact T|]. right.
+    destruct F1 as [F1|F1]; [congruence|]. split.
+    - rewrite (measure_eq p1 p' s1 T1 T2). exact F1.
+    - unfold wf. rewrite T4, S2. cbn [p_length p_set_carry p0]. destruct PL as [-> | ->]; [exact I|left; reflexivity]. }
+  destruct (p_length p) as [l|] eqn:PL.
+  - destruct (l =? 0) eqn:L0.
+    + destruct (read_chunk_from_stream want p0 s) as [x|e] eqn:F; [|discriminate].
+      apply N.eqb_eq in L0. subst l. apply (stream_case x eq_refl); [right; reflexivity|exact H].
+    + apply N.eqb_neq in L0. unfold read_chunk_from_length in H.
+      destruct (s_read (N.min want (l - p_read_bytes p0)) s) as [d0 s1] eqn:R.
+      pose proof (s_read_total _ _ _ _ R) as T. pose proof (s_read_len _ _ _ _ R) as LN.
+      unfold wf in W. rewrite PL in W. destruct W as [W|W]; [congruence|].
+      change (p_read_bytes p0) with (p_read_bytes p) in *.
+      apply rc_tail_spec in H. destruct H as [H|(-> & T1 & T2 & T3 & T4 & T5 & T6)]; [left; exact H|]. right.
+      destruct (s_at_eof s1) eqn:AE; [discriminate T3|].
+      change (p_prev p0) with (p_prev p) in T1. change (p_content_eof p0) with (p_content_eof p) in T2.
+      change (p_length p0) with (p_length p) in T4. change (p_read_bytes p0) with (p_read_bytes p) in T5.
+      assert (D : d0 <> []).
+      { intro D. subst d0. rewrite lenN_nil0 in *.
+        destruct (N.eq_dec (p_read_bytes p) l) as [EQ|NE].
+        - unfold length_reached in T6. rewrite T4, PL, T5 in T6. apply N.eqb_neq in T6. lia.
+        - assert (P : 0 < N.min want (l - p_read_bytes p)) by lia.
+          rewrite (s_read_empty_eof _ _ _ _ P R eq_refl) in AE. discriminate. }
+      apply lenN_pos_cons in D. split.
+      * unfold measure, prev_len. rewrite T1, T2. lia.
+      * unfold wf. rewrite T4, PL, T5. right. lia.
+  - destruct (read_chunk_from_stream want p0 s) as [x|e] eqn:F; [|discriminate].
+    apply (stream_case x eq_refl); [left; reflexivity|exact H].
+Qed.
+
+Lemma read_chunk_no_fuel size p s : read_chunk size p s <> Err EFuel.
+Proof.
+  rewrite read_chunk_eq. destruct (p_at_eof p); [discriminate|].
+  assert (FS : forall want p0, read_chunk_from_stream want p0 s <> Err EFuel).
+  { intros want p0. unfold read_chunk_from_stream. pose proof (blen_ge2 p0).
+    destruct (want <? p_blen p0) eqn:SZ; [discriminate|].
+    destruct (p_prev p0).
+    - destruct (fill_chunk _ _ _ _ _ s) as [[[c0 ce] s2]|e] eqn:F.
+      + destruct (overflow _ _); destruct (find_from _ _ _); discriminate.
+      + intro X. inversion X; subst. revert F. apply fill_chunk_fuel; lia.
+    - destruct (s_read want s) as [r1 s1]. cbv beta iota zeta.
+      destruct (fill_chunk _ _ _ _ _ s1) as [[[c0 ce] s2]|e] eqn:F.
+      + destruct (overflow _ _); destruct (find_from _ _ _); discriminate.
+      + intro X. inversion X; subst. revert F. apply fill_chunk_fuel; lia. }
+  assert (TL : forall b c w x, rc_tail b c w x <> Err EFuel).
+  { intros b c w [[fresh p1] s1]. unfold rc_tail.
+    destruct (if b then _ else _) as [c2 p3].
+    destruct (p_at_eof _); [|discriminate].
+    destruct (s_readline 0 s1) as [[l|] s2]; [|discriminate]. destruct (list_eqb l CRLF); discriminate. }
+  destruct (p_length p) as [l|].
+  - destruct (l =? 0).
+    + destruct (read_chunk_from_stream _ _ s) eqn:F; [apply TL|]. intro X; inversion X; subst. exact (FS _ _ F).
+    + unfold read_chunk_from_length. destruct (s_read _ s). apply TL.
+  - destruct (read_chunk_from_stream _ _ s) eqn:F; [apply TL|]. intro X; inversion X; subst. exact (FS _ _ F).
+Qed.
+
+(* ---- the loops ---- *)
+Lemma chunk_size_pos : 0 < chunk_size.
+Proof. unfold chunk_size. lia. Qed.
+
+Lemma read_loop_eq fuel acc p s :
+  read_loop fuel acc p s =
+  if p_at_eof p then Ok (acc, p, s) else
+  match fuel with
+  | O => Err EFuel
+  | S f => match read_chunk chunk_size p s with
+           | Err e => Err e
+           | Ok (d, p', s') => let acc' := acc ++ d in
+                               if over_client_max (lenN acc') (p_max p) then Err EMaxSize else read_loop f acc' p' s'
+           end
+  end.
+Proof. destruct fuel; reflexivity. Qed.
+
+Theorem read_loop_terminates fuel : forall acc p s,
+  wf p -> (N.to_nat (measure p s) < fuel)%nat -> read_loop fuel acc p s <> Err EFuel.
+Proof.
+  induction fuel as [|f IH]; intros acc p s W Hf; [lia|].
+  rewrite read_loop_eq. destruct (p_at_eof p) eqn:E; [discriminate|].
+  destruct (read_chunk chunk_size p s) as [[[d p'] s']|e] eqn:R.
+  - cbv zeta. destruct (over_client_max _ _); [discriminate|].
+    destruct (read_chunk_progress _ _ _ _ _ _ chunk_size_pos W E R) as [E'|[M W']].
+    + rewrite read_loop_eq, E'. discriminate.
+    + apply IH; [exact W'|lia].
+  - intro X; inversion X; subst. exact (read_chunk_no_fuel _ _ _ R).
+Qed.
+
+Lemma release_loop_eq fuel p s :
+  release_loop fuel p s =
+  if p_at_eof p then Ok (p, s) else
+  match fuel with
+  | O => Err EFuel
+  | S f => match read_chunk chunk_size p s with Err e => Err e | Ok (_, p', s') => release_loop f p' s' end
+  end.
+Proof. destruct fuel; reflexivity. Qed.
+
+Theorem release_loop_terminates fuel : forall p s,
+  wf p -> (N.to_nat (measure p s) < fuel)%nat -> release_loop fuel p s <> Err EFuel.
+Proof.
+  induction fuel as [|f IH]; intros p s W Hf; [lia|].
+  rewrite release_loop_eq. destruct (p_at_eof p) eqn:E; [discriminate|].
+  destruct (read_chunk chunk_size p s) as [[[d p'] s']|e] eqn:R.
+  - destruct (read_chunk_progress _ _ _ _ _ _ chunk_size_pos W E R) as [E'|[M W']].
+    + rewrite release_loop_eq, E'. discriminate.
+    + apply IH; [exact W'|lia].
+  - intro X; inversion X; subst. exact (read_chunk_no_fuel _ _ _ R).
+Qed.
+
+Lemma chunks_loop_eq fuel sizes count bounded acc p s :
+  chunks_loop fuel sizes count bounded acc p s =
+  if p_at_eof p || (bounded && (count =? 0)) then Ok (acc, p, s) else
+  match fuel with
+  | O => Err EFuel
+  | S f =>
+    let '(sz, sizes') := match sizes with [] => (chunk_size, []) | z :: r => (z, r ++ [z]) end in
+    match read_chunk sz p s with
+    | Err e => Err e
+    | Ok (d, p', s') => chunks_loop f sizes' (count - 1) bounded (acc ++ d) p' s'
+    end
+  end.
+Proof. destruct fuel; reflexivity. Qed.
+
+(* the user's read_chunk loop, any positive sizes in any rotation *)
+Theorem chunks_loop_terminates fuel : forall sizes count bounded acc p s,
+  Forall (fun z => 0 < z) sizes -> wf p -> (N.to_nat (measure p s) < fuel)%nat ->
+  chunks_loop fuel sizes count bounded acc p s <> Err EFuel.
+Proof.
+  induction fuel as [|f IH]; intros sizes count bounded acc p s Hs W Hf; [lia|].
+  rewrite chunks_loop_eq. destruct (p_at_eof p) eqn:E; [discriminate|]. cbn [orb].
+  destruct (bounded && (count =? 0)); [discriminate|].
+  assert (exists sz sizes', (match sizes with [] => (chunk_size, []) | z :: r => (z, r ++ [z]) end) = (sz, sizes')
+                            /\ 0 < sz /\ Forall (fun z => 0 < z) sizes') as (sz & sizes' & -> & Hz & Hs').
+  { destruct sizes as [|z r].
+    - exists chunk_size, []. split; [reflexivity|split; [exact chunk_size_pos|constructor]].
+    - inversion Hs; subst. exists z, (r ++ [z]). split; [reflexivity|split; [assumption|]].
+      apply Forall_app. split; [assumption|constructor; [assumption|constructor]]. }
+  destruct (read_chunk sz p s) as [[[d p'] s']|e] eqn:R.
+  - destruct (read_chunk_progress _ _ _ _ _ _ Hz W E R) as [E'|[M W']].
+    + rewrite chunks_loop_eq, E'. discriminate.
+    + apply IH; [exact Hs'|exact W'|lia].
+  - intro X; inversion X; subst. exact (read_chunk_no_fuel _ _ _ R).
+Qed.
+
+Lemma new_part_wf b len b64 mx : wf (new_part b len b64 mx).
+Proof. unfold wf, new_part. cbn. destruct len; [right; lia|exact I]. Qed.
+
+(* a fresh part on any stream: read() needs at most 8 * (bytes in the stream) + 4 iterations *)
+Corollary part_read_terminates b len b64 mx s :
+  part_read (S (N.to_nat (8 * s_total s + 3))) (new_part b len b64 mx) s <> Err EFuel.
+Proof.
+  apply read_loop_terminates; [apply new_part_wf|]. unfold measure, prev_len, new_part. cbn [p_prev p_content_eof]. lia.
+Qed.
+
+(* ---- readline has no guard: the loop `while not part.at_eof(): await part.readline()` spins at EOF ---- *)
+Definition spin_stream : stream := s_init [] true 100.
+Definition spin_part0 : part := new_part [45; 45; 66] None false 0.
+Definition spin_part : part := p_set_unread [[]] spin_part0.
+
+Lemma spin_step0 : part_readline spin_part0 spin_stream = Ok ([], spin_part, spin_stream).
+Proof. vm_compute. reflexivity. Qed.
+Lemma spin_step : part_readline spin_part spin_stream = Ok ([], spin_part, spin_stream).
+Proof. vm_compute. reflexivity. Qed.
+
+Lemma lines_loop_eq fuel count bounded acc p s :
+  lines_loop fuel count bounded acc p s =
+  if p_at_eof p || (bounded && (count =? 0)) then Ok (acc, p, s) else
+  match fuel with
+  | O => Err EFuel
+  | S f => match part_readline p s with
+           | Err e => Err e
+           | Ok (d, p', s') => lines_loop f (count - 1) bounded (acc ++ d) p' s'
+           end
+  end.
+Proof. destruct fuel; reflexivity. Qed.
+
+Lemma spin_loop fuel : forall acc count, lines_loop fuel count false acc spin_part spin_stream = Err EFuel.
+Proof.
+  induction fuel as [|f IH]; intros acc count; rewrite lines_loop_eq.
+  - reflexivity.
+  - change (p_at_eof spin_part || (false && (count =? 0))) with false. cbv iota.
+    rewrite spin_step. apply IH.
+Qed.
+
+Theorem readline_loop_spins :
+  exists p s, p_at_eof p = false /\ s_at_eof s = true /\
+    (forall fuel, lines_loop fuel 0 false [] p s = Err EFuel).
+Proof.
+  exists spin_part0, spin_stream. split; [reflexivity|]. split; [reflexivity|].
+  intros [|f]; rewrite lines_loop_eq; [reflexivity|].
+  change (p_at_eof spin_part0 || (false && (0 =? 0))) with false. cbv iota.
+  rewrite spin_step0. apply spin_loop.
 Qed.
